@@ -6,25 +6,34 @@ kinds produce (orm/mapper.py `_single_table_criterion`, `polymorphic_map`,
 Import-free, total, executable.
 
 A hierarchy is given by the ancestor chain of every class (`ancs[c]` = root … c); class `c`
-owns one attribute column `a_c`; its polymorphic identity is the number `c`.
+owns one attribute column `a_c`; its polymorphic identity is the discriminator value
+`idents[c]` (`none` = a `polymorphic_abstract` mapper, which has no identity); the value 0
+stands for the falsy identities (integer 0, `False`, `''`).
 
 Python                                               model
 ---------------------------------------------------  ------------------------------
-mapper.polymorphic_map[discriminator]                 `decideClass`: `d < n`, else
-   KeyError -> AssertionError "No such                  `.unknownIdentity`
-   polymorphic_identity"
+mapper.polymorphic_map[discriminator]                 `classOf`; `decideClass`: no class
+   KeyError -> AssertionError "No such                  carries the value ->
+   polymorphic_identity"                                `.unknownIdentity`
 discriminator is None -> InvalidRequestError          `.nullDiscriminator`
 sub_mapper is mapper -> base instance_fn;             `decideClass` returns the class;
 not sub_mapper.isa(mapper) -> InvalidRequestError        `.notSubMapper`
    "not a sub-mapper of the requested"
-single table: WHERE type IN (identities of the        `selSingle` (no criterion for the
-   class and its descendants)                            root class)
+Mapper._single_table_criteria_component: the           `inList` (function of the mapper
+   identities of self_and_descendants that are           tree)
+   not polymorphic_abstract
+single table: WHERE type IN (that list)                `selSingle` (no criterion for the
+                                                         root class)
 joined: FROM base JOIN … JOIN table(C)                `inAllTables (ancs C)`
 concrete: polymorphic_union of the subtree             `queryConcrete`
 with_polymorphic none / '*' / [classes]                `primaryCols` (what the first
                                                          SELECT carries)
 deferred subclass columns: one SELECT per object       `deferredLoads`, values by
    on first access (load_scalar_attributes)              re-selecting the row by id
+loading._instance / _populate_full /                   `populate` over `ASt` (dict value,
+   _populate_partial for column attributes                expired flag) per attribute;
+   (populators "quick" / "expire"), execution             `readAttr` = what attribute access
+   option populate_existing, Mapper.always_refresh        returns
 polymorphic_load="selectin": one extra SELECT per      `selectinVia`, `primaryStatements`
    selectin mapper found for a result object             (own class or direct parent only:
    (mapper._should_selectin_load,                         the walk stops where no mapper-level
@@ -33,9 +42,12 @@ polymorphic_load="selectin": one extra SELECT per      `selectinVia`, `primarySt
 Statement counts after attribute access are modelled only for hierarchies without
 `polymorphic_load="selectin"` (the interplay of several selectin mappers with deferred
 loading is not transcribed); the values and classes are modelled for all settings.
+The `selectin_polymorphic()` option and the further `IN` loads change only which statement
+brings a column; `populate` is applied once per object for the primary row (theorem
+`later_loads_keep_db`: further populations do not change what is read).
 Not modelled: composite keys, relationships, of_type(), aliased with_polymorphic against
 a subquery, identical primary keys in two concrete tables, chunking of selectin loads
-(500 keys).
+(500 keys), two classes sharing one identity (the later mapper wins, with a warning).
 -/
 namespace SaVerif.Poly
 
@@ -46,6 +58,9 @@ deriving DecidableEq, Repr
 structure Hier where
   ancs : List (List Nat)
   selectin : List Bool := []
+  /-- `polymorphic_identity` per class; `none` = `polymorphic_abstract`; classes beyond the
+      list are identified by their own number -/
+  idents : List (Option Nat) := []
 deriving Repr
 
 def Hier.n (h : Hier) : Nat := h.ancs.length
@@ -54,6 +69,18 @@ def Hier.anc (h : Hier) (c : Nat) : List Nat := h.ancs.getD c []
 def Hier.isa (h : Hier) (d c : Nat) : Bool := (h.anc d).contains c
 /-- the class and its descendants, in class order (`self_and_descendants`) -/
 def Hier.sub (h : Hier) (c : Nat) : List Nat := (List.range h.n).filter (fun d => h.isa d c)
+
+/-- `mapper(d).polymorphic_identity` -/
+def Hier.ident (h : Hier) (d : Nat) : Option Nat :=
+  match h.idents[d]? with
+  | some v => v
+  | none => some d
+/-- `mapper.polymorphic_map[v]` (one map for the whole hierarchy) -/
+def Hier.classOf (h : Hier) (v : Nat) : Option Nat :=
+  (List.range h.n).find? (fun d => h.ident d == some v)
+/-- `Mapper._single_table_criteria_component`: the discriminator values of the class and its
+    descendants, the `polymorphic_abstract` ones left out -/
+def Hier.inList (h : Hier) (c : Nat) : List Nat := (h.sub c).filterMap h.ident
 
 /-- a loaded entity: primary key, class, the values of that class's attributes (ancestor order) -/
 structure Ent where
@@ -75,10 +102,10 @@ abbrev Res := Except LoadError
 def decideClass (h : Hier) (c : Nat) (disc : Option Nat) : Res Nat :=
   match disc with
   | none => .error .nullDiscriminator
-  | some d =>
-    if d < h.n then
-      if h.isa d c then .ok d else .error .notSubMapper
-    else .error .unknownIdentity
+  | some v =>
+    match h.classOf v with
+    | some d => if h.isa d c then .ok d else .error .notSubMapper
+    | none => .error .unknownIdentity
 
 /-! ## single table inheritance -/
 
@@ -92,7 +119,7 @@ deriving DecidableEq, Repr
 def selSingle (h : Hier) (c : Nat) (r : SRow) : Bool :=
   if (h.anc c).length ≤ 1 then true
   else match r.disc with
-    | some d => (h.sub c).contains d
+    | some v => (h.inList c).contains v
     | none => false
 
 def entOfSRow (h : Hier) (d : Nat) (r : SRow) : Ent :=
@@ -188,5 +215,61 @@ def primaryStatements (h : Hier) (k : Kind) (c : Nat) (ents : List Ent) : Nat :=
   match k with
   | .concrete => 1
   | _ => 1 + (dedup (ents.filterMap (fun e => selectinVia h c e.cls))).length
+
+/-! ## population of an object's column attributes from a row
+
+`loading._instance`: a row either creates a new instance or meets one already in the identity
+map; `_populate_full` runs for new instances and under `populate_existing`
+(`context.populate_existing or mapper.always_refresh`), `_populate_partial` otherwise.  The
+populators of a column attribute are "quick" (the column is in the row) or "expire" with
+`set_callable=True` (a column of the object's class the statement does not carry). -/
+
+/-- one attribute of one object: `val` = the entry of the instance dict, `exp` = membership
+    in `state.expired_attributes` -/
+structure ASt where
+  val : Option (Option Int) := none
+  exp : Bool := false
+deriving DecidableEq, Repr
+
+/-- `isnew` = the instance was created by this row.  `inRow` = the attribute's column is in
+    the row ("quick" populator), else it has an "expire" populator -/
+def populate (created pe inRow : Bool) (rowv : Option Int) (s : ASt) : ASt :=
+  if created || pe then
+    -- _populate_full, isnew
+    if inRow then ⟨some rowv, s.exp⟩
+    else if pe then ⟨none, true⟩     -- dict_.pop(key); expired_attributes.add(key)
+    else ⟨s.val, true⟩               -- expired_attributes.add(key)
+  else
+    -- _populate_partial: to_load = state.unloaded = the keys not in the dict
+    match s.val with
+    | some _ => s
+    | none => if inRow then ⟨some rowv, s.exp⟩ else ⟨none, true⟩
+
+/-- attribute access (`AttributeImpl.get`): the dict entry; else, when expired, the value
+    re-selected from the database; else the default `None` -/
+def readAttr (db : Option Int) (s : ASt) : Option Int :=
+  match s.val with
+  | some v => v
+  | none => if s.exp then db else none
+
+/-- the values of an entity's attributes as read after the load, `pre a` = the state of
+    attribute `a` before (`none` = the object was not in the Session) -/
+def readEnt (h : Hier) (c : Nat) (wp : WP) (pe : Bool) (pre : Nat → Option (Nat → ASt)) (e : Ent) : Ent :=
+  let cols := primaryCols h c wp
+  let vals := (h.anc e.cls).zip e.vals
+  match pre e.id with
+  | none => ⟨e.id, e.cls, vals.map (fun av => readAttr av.2 (populate true pe (cols.contains av.1) av.2 {}))⟩
+  | some st => ⟨e.id, e.cls, vals.map (fun av => readAttr av.2 (populate false pe (cols.contains av.1) av.2 (st av.1)))⟩
+
+/-- objects with an attribute to re-select after the load (one SELECT each on access) -/
+def deferredLoadsSt (h : Hier) (k : Kind) (c : Nat) (wp : WP) (pe : Bool) (pre : Nat → Option (Nat → ASt))
+    (ents : List Ent) : Nat :=
+  match k with
+  | .concrete => 0
+  | _ => (ents.filter (fun e => (h.anc e.cls).any (fun a =>
+      let s := match pre e.id with
+        | none => populate true pe ((primaryCols h c wp).contains a) none {}
+        | some st => populate false pe ((primaryCols h c wp).contains a) none (st a)
+      s.val.isNone && s.exp))).length
 
 end SaVerif.Poly
